@@ -254,7 +254,7 @@ class Run:
         if sched is not None:
             st_ = self.stats.setdefault('schedules', {})
             for k, v in sched.digest_input().items():
-                st_[k] = st_.get(k, 0) + v if k != 'threads' else max(
+                st_[k] = st_.get(k, 0) + v if k != 'max_threads' else max(
                     st_.get(k, 0), v)
             st_['builds_with_threads'] = st_.get(
                 'builds_with_threads', 0) + (1 if sched.max_threads > 1
@@ -1132,6 +1132,7 @@ def run_scenario(sc, opts=None):
         res['log_digest'] = digest(run.log, 16)
         res['log'] = run.log
         res['runs'] = 1 + getattr(run, 'fault_runs', 0)
+        res['sched_digests'] = sorted(run.sched_digests)
         res['stats'] = run.stats
         return res
     except Exception:
